@@ -1,8 +1,8 @@
 (* C11: on the JSON-native fragment the generated schema accepts exactly what the validator
    accepts. [sat] (Model/SchemaSat.v) evaluates the model schema; [run] is the validator. *)
-From Coq Require Import ZArith List Bool String Lia QArith.
+From Coq Require Import ZArith List Bool String Lia QArith Btauto.
 From KV Require Import Base.PyVal Base.Prims Model.Validator Model.Sem Model.Schema Model.SchemaWf
-     Model.SchemaSat Proofs.EqbSound Proofs.VInd Proofs.SchemaP Proofs.Scalar.
+     Model.SchemaSat Proofs.EqbSound Proofs.VInd Proofs.SchemaP Proofs.Scalar Proofs.Collections Proofs.Records.
 Import ListNotations.
 Open Scope Z_scope.
 
@@ -22,6 +22,12 @@ Ltac kwd :=
 
 Lemma forallb_ext' {A} (f g : A -> bool) l : (forall a, f a = g a) -> forallb f l = forallb g l.
 Proof. intros H. induction l as [|x l IH]; cbn; [reflexivity|]. rewrite H, IH. reflexivity. Qed.
+
+Lemma forallb_ext_in {A} (f g : A -> bool) l : (forall a, In a l -> f a = g a) -> forallb f l = forallb g l.
+Proof.
+  induction l as [|x l IH]; intros H; cbn; [reflexivity|].
+  rewrite (H x (or_introl eq_refl)), IH; [reflexivity|]. intros a Ha. apply H. right; exact Ha.
+Qed.
 
 (* ---------- objects built by update ---------- *)
 
@@ -380,6 +386,30 @@ Section Frag.
     unfold flat_entries. cbn [flat_map]. rewrite forallb_app, (pred_entries_not p). exact IH.
   Qed.
 
+  Notation kprops := (lit "properties").
+
+  Lemma pred_entries_not_props p : forallb (not_key kprops) (pred_entries p) = true.
+  Proof.
+    assert (H1 : forall k' v, jstr_eqb k' kprops = false -> forallb (not_key kprops) [(k', v)] = true).
+    { intros k' v Hn. cbn. unfold not_key. cbn [fst]. rewrite Hn. reflexivity. }
+    unfold pred_entries. destruct p; cbn [pred_schema]; try reflexivity; try (apply H1; reflexivity).
+    - unfold bound_schema. destruct m; try reflexivity; try (destruct excl; apply H1; reflexivity).
+      destruct (float_finite f); [|reflexivity]. destruct excl; apply H1; reflexivity.
+    - unfold bound_schema. destruct m; try reflexivity; try (destruct excl; apply H1; reflexivity).
+      destruct (float_finite f); [|reflexivity]. destruct excl; apply H1; reflexivity.
+    - destruct (py_sorted cs); cbn [pbind]; [|reflexivity]. destruct (pmap _ _); cbn [pbind]; [|reflexivity].
+      apply H1; reflexivity.
+    - destruct (choice_json text_of m); cbn [pbind]; [|reflexivity]. apply H1; reflexivity.
+    - destruct (unsub s); try reflexivity; apply H1; reflexivity.
+    - destruct (unsub s); try reflexivity; apply H1; reflexivity.
+  Qed.
+
+  Lemma flat_entries_not_props ps : forallb (not_key kprops) (flat_entries ps) = true.
+  Proof.
+    induction ps as [|p ps IH]; [reflexivity|].
+    unfold flat_entries. cbn [flat_map]. rewrite forallb_app, (pred_entries_not_props p). exact IH.
+  Qed.
+
   Definition tname (k : scalar_kind) : jstring :=
     match k with KStr => lit "string" | KInt => lit "integer" | KFloat => lit "number" | _ => lit "boolean" end.
 
@@ -459,6 +489,199 @@ Section Frag.
       + eexists; eexists; split; [reflexivity|]. reflexivity.
   Qed.
 
+  (* ---------- size predicates and members of a map ---------- *)
+
+  Definition keys_frag (p : predicate) : bool :=
+    match p with PMinKeys _ | PMaxKeys _ => true | _ => false end.
+
+  Definition is_vdict (x : pyval) : bool := match x with VDict _ => true | _ => false end.
+
+  Lemma keys_class : pred_class keys_frag is_vdict.
+  Proof.
+    split; [exists (VDict []); reflexivity|].
+    intros p x d Hp Hx. destruct x; try discriminate. destruct p; try discriminate;
+      (eexists; eexists; split; [reflexivity|]; split; [reflexivity|];
+       cbn [forallb]; unfold entry_sat; kwd; apply andb_true_r).
+  Qed.
+
+  Definition kstr : validator := Scalar KStr None [] [] [].
+
+  Lemma map_ref_agree n vv (b : pyval -> bool) : forall kvs acc errs,
+      forallb (fun kv => is_str (fst kv)) kvs = true ->
+      (forall kv, In kv kvs -> agree (b (snd kv)) (run E Sync (S n) vv (snd kv))) ->
+      exists acc' errs',
+        map_ref E (run E Sync (S n)) kstr vv kvs acc errs = inr (acc', errs') /\
+        ((match errs' with [] => true | _ => false end)
+         = (match errs with [] => true | _ => false end) && forallb (fun kv => b (snd kv)) kvs).
+  Proof.
+    induction kvs as [|[k v] kvs IH]; intros acc errs Hk Hv; cbn [map_ref forallb fst snd] in *.
+    - eexists; eexists; split; [reflexivity|]. rewrite andb_true_r. reflexivity.
+    - apply andb_prop in Hk. destruct Hk as [Hk0 Hks]. destruct k; try discriminate.
+      cbv zeta. change (run E Sync (S n) kstr (VStr s)) with (OValid (VStr s)). cbn [normal negb].
+      pose proof (Hv (VStr s, v) (or_introl eq_refl)) as Ha. cbn [snd] in Ha.
+      destruct (b v); cbn [agree] in Ha; destruct Ha as [w ->]; cbn [normal negb hashable].
+      + destruct (IH (dict_set acc (VStr s) w) errs Hks (fun kv Hin => Hv kv (or_intror Hin))) as [acc' [errs' [E1 E2]]].
+        exists acc', errs'. split; [exact E1|]. rewrite E2. cbn [andb]. reflexivity.
+      + destruct (IH acc (errs ++ [(VStr s, (inv_of (OValid (VStr s)), inv_of (OInvalid w)))]) Hks (fun kv Hin => Hv kv (or_intror Hin)))
+          as [acc' [errs' [E1 E2]]].
+        exists acc', errs'. split; [exact E1|]. rewrite E2. destruct errs; cbn; reflexivity.
+  Qed.
+
+  Lemma in_props_none d k : obj_get d (lit "properties") = None -> in_props d k = false.
+  Proof. unfold in_props. intros ->. reflexivity. Qed.
+
+  (* ---------- record-shaped validators ---------- *)
+
+  (* what both sides expect of one declared key *)
+  Definition key_ok (data : list (pyval * pyval)) (k : pyval) (req : bool) (j : json) : bool :=
+    match dict_get data k with Some xv => sat j xv | None => negb req end.
+
+  Fixpoint keys_ok (data : list (pyval * pyval)) (keys : list (pyval * (validator * bool))) (js : list json) : bool :=
+    match keys, js with
+    | (k, (_, req)) :: kr, j :: jr => key_ok data k req j && keys_ok data kr jr
+    | _, _ => true
+    end.
+
+  Lemma dict_get_json data k xv :
+    forallb (fun kv => match fst kv with VStr _ => is_json (snd kv) | _ => false end) data = true ->
+    dict_get data k = Some xv -> is_json xv = true.
+  Proof.
+    induction data as [|[k0 v0] data IH]; cbn [forallb dict_get fst snd]; intros H Hg; [discriminate|].
+    apply andb_prop in H. destruct H as [H0 H1]. destruct (py_eq k0 k).
+    - injection Hg as <-. destruct k0; try discriminate. exact H0.
+    - apply IH; assumption.
+  Qed.
+
+  Lemma keys_ref_agree (rec : runner) self pol data orig :
+    forallb (fun kv => match fst kv with VStr _ => is_json (snd kv) | _ => false end) data = true ->
+    forall keys js,
+      Forall2 (fun key j => forall xv, is_json xv = true -> agree (sat j xv) (rec (fst (snd key)) xv)) keys js ->
+      exists ws errs, keys_ref rec self pol keys data orig = inr (ws, errs) /\
+                      (match errs with [] => true | _ => false end) = keys_ok data keys js.
+  Proof.
+    intros Hd keys js HF. induction HF as [|[k [v req]] j keys js Hkj HF IH]; cbn [keys_ref keys_ok].
+    - eexists; eexists; split; reflexivity.
+    - destruct IH as [ws [errs [E1 E2]]]. unfold key_ok. cbn [fst snd] in Hkj.
+      destruct (dict_get data k) as [xv|] eqn:Eg.
+      + pose proof (Hkj xv (dict_get_json data k xv Hd Eg)) as Ha.
+        destruct (sat j xv); cbn [agree] in Ha; destruct Ha as [w ->]; rewrite E1.
+        * eexists; eexists; split; [reflexivity|]. cbn [andb]. exact E2.
+        * eexists; eexists; split; [reflexivity|]. reflexivity.
+      + rewrite E1. destruct req.
+        * eexists; eexists; split; [reflexivity|]. reflexivity.
+        * destruct pol; eexists; eexists; (split; [reflexivity|]); cbn [negb andb]; exact E2.
+  Qed.
+
+  (* properties built from distinct labels is just the pairing *)
+  Lemma props_of_combine : forall ls js acc,
+      strs_unique (map fst acc ++ ls) = true ->
+      fold_left (fun a kv => obj_set a (fst kv) (snd kv)) (combine ls js) acc = acc ++ combine ls js.
+  Proof.
+    induction ls as [|l ls IH]; intros js acc Hu; cbn [combine fold_left]; [rewrite app_nil_r; reflexivity|].
+    destruct js as [|j js]; cbn [combine fold_left fst snd]; [rewrite app_nil_r; reflexivity|].
+    destruct (strs_unique_mid _ _ _ Hu) as [H1 _].
+    rewrite obj_set_fresh by exact H1. rewrite IH.
+    - rewrite <- app_assoc. reflexivity.
+    - rewrite map_app. cbn [map fst]. rewrite <- app_assoc. exact Hu.
+  Qed.
+
+  Definition skey (k : pyval) : jstring := match k with VStr s => s | _ => [] end.
+
+  Lemma key_label_str k : is_str k = true -> key_label text_of k = skey k.
+  Proof. destruct k; try discriminate. reflexivity. Qed.
+
+  (* the four keywords of an object schema against a JSON object *)
+  Lemma sat_object strict req labels js data :
+    List.length labels = List.length js ->
+    sat (object_schema strict req (combine labels js)) (VDict data)
+    = forallb (fun e => match fst e with
+                        | VStr k' => existsb (fun l => jstr_eqb l k') labels || negb strict
+                        | _ => false
+                        end) data
+      && (forallb (fun r => dict_has data (VStr r)) req
+          && forallb (fun e => match dict_get data (VStr (fst e)) with
+                               | Some xv => sat (snd e) xv
+                               | None => true
+                               end) (combine labels js)).
+  Proof.
+    intros Hl. unfold object_schema. cbn [SchemaSat.sat]. unfold nullable. rewrite obj_get_none by reflexivity.
+    cbn [andb orb forallb]. unfold entry_sat. kwd.
+    change (type_sat (lit "object") (VDict data)) with true. cbn [andb]. rewrite andb_true_r.
+    f_equal; [|f_equal].
+    - apply forallb_ext'. intros [k v]. cbn [fst snd]. destruct k; try reflexivity.
+      unfold in_props. change (obj_get _ (lit "properties")) with (Some (JObj (combine labels js))).
+      cbn [SchemaSat.sat]. f_equal.
+      clear - Hl. revert js Hl. induction labels as [|l labels IH]; intros js Hl; destruct js as [|j js]; try discriminate; [reflexivity|].
+      cbn [combine existsb fst]. rewrite (IH js) by (cbn in Hl; lia). reflexivity.
+    - induction req as [|r req IH]; [reflexivity|]. cbn [map forallb]. rewrite IH. reflexivity.
+  Qed.
+
+  Lemma keys_ok_split data : forall keys js,
+      List.length keys = List.length js ->
+      forallb (fun key => is_str (fst key)) keys = true ->
+      keys_ok data keys js
+      = forallb (fun r => dict_has data (VStr r)) (map (fun key => skey (fst key)) (filter (fun key => snd (snd key)) keys))
+        && forallb (fun e => match dict_get data (VStr (fst e)) with
+                             | Some xv => sat (snd e) xv
+                             | None => true
+                             end) (combine (map (fun key => skey (fst key)) keys) js).
+  Proof.
+    induction keys as [|[k [v req]] keys IH]; intros js Hl Hs; destruct js as [|j js]; try discriminate; [reflexivity|].
+    cbn [forallb fst] in Hs. apply andb_prop in Hs. destruct Hs as [Hk Hs]. destruct k; try discriminate.
+    assert (Hl' : List.length keys = List.length js) by (cbn in Hl; lia).
+    cbn [keys_ok]. rewrite (IH js Hl' Hs). clear IH.
+    unfold key_ok, dict_has. cbn [filter snd fst].
+    destruct req; cbn [map combine forallb skey fst snd];
+      destruct (dict_get data (VStr s)) as [xv|]; cbn [negb andb];
+        repeat match goal with |- context [forallb ?f ?l] => generalize (forallb f l); intros ? end;
+        try match goal with |- context [sat ?a ?b] => generalize (sat a b); intros ? end; btauto.
+  Qed.
+
+  Lemma unknown_keys_sat strict keys data :
+    forallb (fun key => is_str (fst key)) keys = true ->
+    forallb (fun kv => match fst kv with VStr _ => true | _ => false end) data = true ->
+    forallb (fun e => match fst e with
+                      | VStr k' => existsb (fun l => jstr_eqb l k') (map (fun key : pyval * (validator * bool) => skey (fst key)) keys) || negb strict
+                      | _ => false
+                      end) data
+    = negb (strict && has_unknown_key (map fst keys) data).
+  Proof.
+    intros Hs Hd. unfold has_unknown_key. induction data as [|[k v] data IH]; [destruct strict; reflexivity|].
+    cbn [forallb existsb fst] in *. apply andb_prop in Hd. destruct Hd as [Hk Hd]. destruct k; try discriminate.
+    rewrite (IH Hd).
+    assert (Hin : existsb (fun l => jstr_eqb l s) (map (fun key : pyval * (validator * bool) => skey (fst key)) keys)
+                  = py_in (VStr s) (map fst keys)).
+    { clear - Hs. unfold py_in. induction keys as [|[k0 [v0 r0]] keys IH]; [reflexivity|].
+      cbn [forallb fst] in Hs. apply andb_prop in Hs. destruct Hs as [H0 Hs]. destruct k0; try discriminate.
+      cbn [map existsb fst skey]. rewrite (IH Hs). f_equal. cbn [py_eq]. apply jstr_eqb_sym. }
+    rewrite Hin. destruct strict, (py_in (VStr s) (map fst keys)); cbn; try reflexivity;
+      destruct (existsb _ data); reflexivity.
+  Qed.
+
+  Lemma sat_record strict (keys : list (pyval * (validator * bool))) js data :
+    List.length keys = List.length js ->
+    forallb (fun key => is_str (fst key)) keys = true ->
+    forallb (fun kv : pyval * pyval => match fst kv with VStr _ => true | _ => false end) data = true ->
+    sat (object_schema strict (map (fun key => skey (fst key)) (filter (fun key => snd (snd key)) keys))
+                       (combine (map (fun key => skey (fst key)) keys) js)) (VDict data)
+    = negb (strict && has_unknown_key (map fst keys) data) && keys_ok data keys js.
+  Proof.
+    intros Hl Hs Hd. rewrite sat_object by (rewrite map_length; exact Hl).
+    rewrite (unknown_keys_sat strict keys data Hs Hd), <- (keys_ok_split data keys js Hl Hs). reflexivity.
+  Qed.
+
+  Lemma forallb_insert_str (f : jstring -> bool) x xs : forallb f (insert_str x xs) = f x && forallb f xs.
+  Proof.
+    induction xs as [|y ys IH]; cbn [insert_str forallb]; [reflexivity|].
+    destruct (lex_leb false x y); cbn [forallb]; [reflexivity|]. rewrite IH. btauto.
+  Qed.
+
+  Lemma forallb_sort_strings (f : jstring -> bool) xs : forallb f (sort_strings xs) = forallb f xs.
+  Proof.
+    unfold sort_strings. induction xs as [|x xs IH]; cbn [fold_right forallb]; [reflexivity|].
+    rewrite forallb_insert_str, IH. reflexivity.
+  Qed.
+
   (* ---------- the fragment ---------- *)
 
   Definition val_kind (m : pyval) : option scalar_kind :=
@@ -477,6 +700,19 @@ Section Frag.
         frag item && forallb count_frag ps
         && strs_unique (lit "type" :: lit "items" :: map fst (flat_entries ps))
     | NTupleV fields None (Some CoTupleOrList) => forallb frag fields
+    | MapV (Scalar KStr None [] [] []) vv ps [] None =>
+        frag vv && forallb keys_frag ps
+        && strs_unique (lit "type" :: lit "additionalProperties" :: map fst (flat_entries ps))
+    | DictAnyV schema None None _ =>
+        forallb (fun kv => is_str (fst kv) && frag (snd kv)) schema
+        && strs_unique (map (fun kv => skey (fst kv)) schema)
+    | RecordV keys _ None None _ =>
+        forallb (fun kv => is_str (fst kv) && frag (snd kv)) keys
+        && strs_unique (map (fun kv => skey (fst kv)) keys)
+    | ClassV _ _ schema None None _ None =>
+        forallb (fun kv => is_str (fst kv) && frag (fst (snd kv))) schema
+        && strs_unique (map (fun kv => skey (fst kv)) schema)
+    | KeyNotRequired inner => frag inner
     | OptionalV (NoneV None) inner => frag inner
     | CacheV inner => frag inner
     | _ => false
@@ -486,6 +722,11 @@ Section Frag.
     match v with
     | ListV item _ _ _ => S (vheight item)
     | NTupleV fields _ _ => S (list_max (map vheight fields))
+    | MapV _ vv _ _ _ => S (vheight vv)
+    | DictAnyV schema _ _ _ => S (list_max (map (fun kv => vheight (snd kv)) schema))
+    | RecordV keys _ _ _ _ => S (list_max (map (fun kv => vheight (snd kv)) keys))
+    | ClassV _ _ schema _ _ _ _ => S (list_max (map (fun kv => vheight (fst (snd kv))) schema))
+    | KeyNotRequired inner => S (vheight inner)
     | OptionalV _ inner => S (vheight inner)
     | CacheV inner => S (vheight inner)
     | _ => O
@@ -568,6 +809,72 @@ Section Frag.
     unfold list_max in *. cbn [fold_right] in H.
     destruct Hin as [->|Hin]; [lia | apply IH; [lia | exact Hin]].
   Qed.
+
+  Definition agrees (f : validator) : Prop :=
+    forall n, (vheight f < n)%nat -> forall x, is_json x = true ->
+      exists d, to_schema text_of named f = Ok (JObj d) /\ agree (sat (JObj d) x) (run E Sync n f x).
+
+  Lemma many_of_agree n : forall vs,
+      Forall agrees vs -> (forall f, In f vs -> (vheight f < n)%nat) ->
+      exists js, many_of (to_schema text_of named) vs = Ok js /\
+                 List.length js = List.length vs /\ Forall2 (child_agree n) vs js.
+  Proof.
+    induction vs as [|f fs IH]; intros HA Hh.
+    - exists []. repeat split; constructor.
+    - inversion HA as [|? ? Hf HAs]; subst.
+      destruct (Hf (S (vheight f)) (Nat.lt_succ_diag_r _) VNone eq_refl) as [d0 [Ed0 _]].
+      destruct (IH HAs (fun g Hg => Hh g (or_intror Hg))) as [js [Ejs [Hlen HF2]]].
+      exists (JObj d0 :: js). cbn [many_of]. rewrite Ed0. cbn [pbind]. fold (many_of (to_schema text_of named)).
+      rewrite Ejs. cbn [pbind]. split; [reflexivity|]. split; [cbn; rewrite Hlen; reflexivity|].
+      constructor; [|exact HF2]. intros x Hx. destruct (Hf n (Hh f (or_introl eq_refl)) x Hx) as [d1 [Ed1 Ha]].
+      rewrite Ed0 in Ed1. injection Ed1 as <-. exact Ha.
+  Qed.
+
+  Lemma knr_agree b n inner x :
+    agree b (run E Sync (S n) (KeyNotRequired inner) x) -> agree b (run E Sync n inner x).
+  Proof.
+    cbn [run step]. unfold knr_body. destruct (run E Sync n inner x); destruct b; cbn [agree];
+      intros [w0 H0]; try discriminate; eexists; reflexivity.
+  Qed.
+
+  Lemma sat_object_nondict strict req props x :
+    match x with VDict _ => False | _ => True end -> is_json x = true ->
+    sat (object_schema strict req props) x = false.
+  Proof.
+    intros Hx Hj. unfold object_schema. cbn [SchemaSat.sat]. unfold nullable. rewrite obj_get_none by reflexivity.
+    cbn [andb orb forallb]. unfold entry_sat at 1. kwd. destruct x; try contradiction; try discriminate; reflexivity.
+  Qed.
+
+  Lemma required_labels (g : validator -> validator) (schema : list (pyval * validator)) :
+    forallb (fun kv => is_str (fst kv)) schema = true ->
+    map (fun kv => key_label text_of (fst kv)) (filter (fun kv => negb (is_knr (snd kv))) schema)
+    = map (fun key => skey (fst key))
+          (filter (fun key : pyval * (validator * bool) => snd (snd key))
+                  (map (fun kv => (fst kv, (g (snd kv), is_required_marker (snd kv)))) schema)).
+  Proof.
+    induction schema as [|[k v] schema IH]; intros Hs; [reflexivity|].
+    cbn [forallb fst] in Hs. apply andb_prop in Hs. destruct Hs as [Hk Hs].
+    cbn [map filter fst snd]. assert (Hm : is_required_marker v = negb (is_knr v)) by (destruct v; reflexivity).
+    rewrite Hm. destruct (negb (is_knr v)); cbn [map fst]; rewrite (IH Hs); [rewrite (key_label_str k Hk)|]; reflexivity.
+  Qed.
+
+  Lemma labels_eq (schema : list (pyval * validator)) :
+    forallb (fun kv => is_str (fst kv)) schema = true ->
+    map (fun kv => key_label text_of (fst kv)) schema = map (fun kv => skey (fst kv)) schema.
+  Proof.
+    induction schema as [|[k v] schema IH]; intros Hs; [reflexivity|].
+    cbn [forallb fst] in Hs. apply andb_prop in Hs. destruct Hs as [Hk Hs].
+    cbn [map fst]. rewrite (key_label_str k Hk), (IH Hs). reflexivity.
+  Qed.
+
+  Ltac fold_obj :=
+    match goal with
+    | |- context [JObj [(lit "type", JStr (lit "object")); (lit "additionalProperties", JBool (negb ?st));
+                        (lit "required", JArr (map JStr ?r)); (lit "properties", JObj ?pp)]] =>
+        change (JObj [(lit "type", JStr (lit "object")); (lit "additionalProperties", JBool (negb st));
+                      (lit "required", JArr (map JStr r)); (lit "properties", JObj pp)])
+          with (object_schema st r pp)
+    end.
 
   Theorem frag_agree : forall v,
       frag v = true -> forall n, (vheight v < n)%nat -> forall x, is_json x = true ->
@@ -677,6 +984,210 @@ Section Frag.
         { destruct (Z.leb_spec (Z.of_nat (List.length xs)) (Z.of_nat (List.length fields))); [|reflexivity].
           destruct (Z.leb_spec (Z.of_nat (List.length fields)) (Z.of_nat (List.length xs))); [lia | reflexivity]. }
         rewrite Hb. cbn [agree]. eexists; reflexivity.
+    - (* MapV *)
+      destruct v1; try discriminate. destruct k; try discriminate. destruct co0; try discriminate.
+      destruct pre; try discriminate. destruct ps0; try discriminate. destruct aps0; try discriminate.
+      destruct aps; try discriminate. destruct co; try discriminate.
+      apply andb_prop in Hf. destruct Hf as [Hf Hu]. apply andb_prop in Hf. destruct Hf as [Hfv Hps].
+      cbn [vheight] in Hn. destruct n as [|n]; [lia|].
+      destruct (IHv2 Hfv (S (vheight v2)) (Nat.lt_succ_diag_r _) VNone eq_refl) as [dj [Ej _]].
+      cbn [to_schema]. rewrite Ej. cbn [pbind].
+      rewrite (preds_update_flat _ _ keys_class ps _ Hps) by exact Hu. cbn [pbind apreds_schema app].
+      eexists; split; [reflexivity|].
+      set (d := (lit "type", JStr (lit "object")) :: (lit "additionalProperties", JObj dj) :: flat_entries ps).
+      assert (Hnull : nullable d = false).
+      { unfold nullable. rewrite obj_get_none; [reflexivity|]. subst d. cbn [forallb].
+        fold (not_key knull). rewrite (flat_entries_not ps). reflexivity. }
+      assert (Hprops : obj_get d (lit "properties") = None).
+      { apply obj_get_none. subst d. cbn [forallb]. fold (not_key kprops). rewrite (flat_entries_not_props ps). reflexivity. }
+      cbn [SchemaSat.sat]. rewrite Hnull. cbn [andb orb]. subst d. cbn [forallb].
+      unfold entry_sat at 1 2. kwd.
+      unfold map_body. cbn [mode_eqb nonempty andb gate].
+      destruct x; try discriminate; try (cbn; eexists; reflexivity).
+      change (exact_type (VDict kvs) TDict) with true. cbn iota.
+      destruct (preds_sat _ _ keys_class ps (VDict kvs)
+                          ((lit "type", JStr (lit "object")) :: (lit "additionalProperties", JObj dj) :: flat_entries ps) Hps eq_refl)
+        as [fs [F1 F2]].
+      unfold pred_stage, all_failing. rewrite F1. cbn [pbind]. rewrite F2.
+      change (type_sat (lit "object") (VDict kvs)) with true. cbn [andb].
+      destruct fs as [|f0 fs]; [|rewrite andb_false_r; cbn [agree]; eexists; reflexivity].
+      rewrite andb_true_r. cbn [as_dict unsub]. rewrite collect_map_ref.
+      cbn [is_json] in Hx.
+      assert (Hkeys : forallb (fun kv => is_str (fst kv)) kvs = true).
+      { apply forallb_forall. intros [k0 v0] Hin. rewrite forallb_forall in Hx. specialize (Hx _ Hin). cbn [fst snd] in *.
+        destruct k0; try discriminate. reflexivity. }
+      assert (Hvals : forall kv, In kv kvs -> agree (sat (JObj dj) (snd kv)) (run E Sync (S n) v2 (snd kv))).
+      { intros [k0 v0] Hin. rewrite forallb_forall in Hx. specialize (Hx _ Hin). cbn [fst snd] in *.
+        destruct k0; try discriminate.
+        destruct (IHv2 Hfv (S n) ltac:(lia) v0 Hx) as [dj' [Ej' Hj']]. rewrite Ej in Ej'. injection Ej' as <-. exact Hj'. }
+      destruct (map_ref_agree n v2 (sat (JObj dj)) kvs [] [] Hkeys Hvals) as [acc' [errs' [M1 M2]]].
+      fold kstr. rewrite M1. cbn [andb] in M2.
+      assert (Hadd : forallb (fun e => match fst e with
+                                       | VStr k' => in_props ((lit "type", JStr (lit "object")) :: (lit "additionalProperties", JObj dj) :: flat_entries ps) k'
+                                                    || sat (JObj dj) (snd e)
+                                       | _ => false
+                                       end) kvs
+                     = forallb (fun kv => sat (JObj dj) (snd kv)) kvs).
+      { apply forallb_ext_in. intros [k0 v0] Hin. cbn [fst snd].
+        rewrite forallb_forall in Hkeys. specialize (Hkeys _ Hin). cbn [fst] in Hkeys. destruct k0; try discriminate.
+        rewrite (in_props_none _ _ Hprops). reflexivity. }
+      rewrite Hadd, <- M2. destruct errs'; cbn [agree]; eexists; reflexivity.
+    - (* RecordV *)
+      destruct vobj; try discriminate. destruct avobj; try discriminate.
+      apply andb_prop in Hf. destruct Hf as [Hfs Hu]. cbn [vheight] in Hn.
+      assert (Hstr : forallb (fun kv : pyval * validator => is_str (fst kv)) keys = true).
+      { apply forallb_forall. intros kv Hin. rewrite forallb_forall in Hfs. specialize (Hfs kv Hin). apply andb_prop in Hfs. apply Hfs. }
+      assert (HA : Forall agrees (map snd keys)).
+      { apply Forall_map. rewrite Forall_forall in H. apply Forall_forall. intros kv Hin.
+        rewrite forallb_forall in Hfs. specialize (Hfs kv Hin). apply andb_prop in Hfs. destruct Hfs as [_ Hfk].
+        intros m Hm y Hy. apply (H kv Hin Hfk m Hm y Hy). }
+      assert (Hh : forall f, In f (map snd keys) -> (vheight f < n)%nat).
+      { intros f Hin. apply (list_max_lt (map (fun kv => vheight (snd kv)) keys) n (vheight f)); [lia|].
+        apply in_map_iff in Hin. destruct Hin as [kv [<- Hin]]. apply in_map_iff. exists kv. split; [reflexivity | exact Hin]. }
+      destruct (many_of_agree n (map snd keys) HA Hh) as [js [Ejs [Hlen HF2]]].
+      change (to_schema text_of named (RecordV keys into None None strict))
+        with (pbind (many_k_of (to_schema text_of named) keys) (fun js =>
+              Ok (object_schema strict
+                    (map (fun kv => key_label text_of (fst kv)) (filter (fun kv => negb (is_knr (snd kv))) keys))
+                    (props_of (map (fun kv => key_label text_of (fst kv)) keys) js)))).
+      rewrite many_k_map, Ejs. cbn [pbind]. eexists; split; [reflexivity|]. fold_obj.
+      rewrite (labels_eq keys Hstr).
+      unfold props_of. rewrite (props_of_combine _ js []) by (cbn [map app]; exact Hu). cbn [app].
+      rewrite (required_labels (fun v => v) keys Hstr).
+      unfold record_body. cbn [mode_eqb has_some andb].
+      destruct x; try discriminate; try (rewrite sat_object_nondict by (try exact I; exact Hx); cbn; eexists; reflexivity).
+      rewrite map_length in Hlen. cbn [is_json] in Hx.
+      change (isinstance (ckind E) (VDict kvs) TDict) with true. cbn [negb as_dict unsub].
+      fold (record_keys keys).
+      set (rkeys := record_keys keys) in *.
+      assert (Hkstr : forallb (fun key : pyval * (validator * bool) => is_str (fst key)) rkeys = true).
+      { subst rkeys. unfold record_keys. rewrite forallb_map. exact Hstr. }
+      assert (Hdk : forallb (fun kv : pyval * pyval => match fst kv with VStr _ => true | _ => false end) kvs = true).
+      { apply forallb_forall. intros [k0 v0] Hin. rewrite forallb_forall in Hx. specialize (Hx _ Hin). cbn [fst snd] in *. destruct k0; try discriminate. reflexivity. }
+      assert (Hlab : map (fun kv : pyval * validator => skey (fst kv)) keys = map (fun key : pyval * (validator * bool) => skey (fst key)) rkeys).
+      { subst rkeys. unfold record_keys. rewrite map_map. reflexivity. }
+      assert (Hfst : map fst rkeys = map fst keys) by (subst rkeys; unfold record_keys; rewrite map_map; reflexivity).
+      rewrite Hlab, (sat_record strict rkeys js kvs) by (try exact Hkstr; try exact Hdk; subst rkeys; unfold record_keys; rewrite map_length; symmetry; exact Hlen).
+      rewrite Hfst.
+      destruct (strict && has_unknown_key (map fst keys) kvs); cbn [negb andb]; [cbn [agree]; eexists; reflexivity|].
+      rewrite keys_loop_ref.
+      assert (HFk : Forall2 (fun key j => forall xv, is_json xv = true -> agree (sat j xv) (run E Sync n (fst (snd key)) xv)) rkeys js).
+      { subst rkeys. unfold record_keys. clear - HF2. revert js HF2. induction keys as [|[k v] keys IH]; intros js HF2.
+        - inversion HF2; subst. constructor.
+        - cbn [map] in *. inversion HF2 as [|? j ? js0 Ha HFa]; subst.
+          constructor; [|apply IH; assumption]. cbn [fst snd]. exact Ha. }
+      destruct (keys_ref_agree (run E Sync n) (RecordV keys into None None strict) AbsNothing kvs (VDict kvs) Hx rkeys js HFk) as [ws [errs [K1 K2]]].
+      rewrite K1, <- K2. destruct errs; cbn [agree obj_stage]; eexists; reflexivity.
+    - (* DictAnyV *)
+      destruct vobj; try discriminate. destruct avobj; try discriminate.
+      apply andb_prop in Hf. destruct Hf as [Hfs Hu]. cbn [vheight] in Hn.
+      assert (Hstr : forallb (fun kv : pyval * validator => is_str (fst kv)) schema = true).
+      { apply forallb_forall. intros kv Hin. rewrite forallb_forall in Hfs. specialize (Hfs kv Hin). apply andb_prop in Hfs. apply Hfs. }
+      assert (HA : Forall agrees (map snd schema)).
+      { apply Forall_map. rewrite Forall_forall in H. apply Forall_forall. intros kv Hin.
+        rewrite forallb_forall in Hfs. specialize (Hfs kv Hin). apply andb_prop in Hfs. destruct Hfs as [_ Hfk].
+        intros m Hm y Hy. apply (H kv Hin Hfk m Hm y Hy). }
+      assert (Hh : forall f, In f (map snd schema) -> (vheight f < n)%nat).
+      { intros f Hin. apply (list_max_lt (map (fun kv => vheight (snd kv)) schema) n (vheight f)); [lia|].
+        apply in_map_iff in Hin. destruct Hin as [kv [<- Hin]]. apply in_map_iff. exists kv. split; [reflexivity | exact Hin]. }
+      destruct (many_of_agree n (map snd schema) HA Hh) as [js [Ejs [Hlen HF2]]].
+      destruct (many_of_agree (S n) (map snd schema) HA (fun f Hin => Nat.lt_lt_succ_r _ _ (Hh f Hin))) as [js' [Ejs' [_ HF2']]].
+      rewrite Ejs in Ejs'. injection Ejs' as <-.
+      change (to_schema text_of named (DictAnyV schema None None strict))
+        with (pbind (many_k_of (to_schema text_of named) schema) (fun js =>
+              Ok (object_schema strict
+                    (map (fun kv => key_label text_of (fst kv)) (filter (fun kv => negb (is_knr (snd kv))) schema))
+                    (props_of (map (fun kv => key_label text_of (fst kv)) schema) js)))).
+      rewrite many_k_map, Ejs. cbn [pbind]. eexists; split; [reflexivity|]. fold_obj.
+      rewrite (labels_eq schema Hstr).
+      unfold props_of. rewrite (props_of_combine _ js []) by (cbn [map app]; exact Hu). cbn [app].
+      rewrite (required_labels unwrap_knr schema Hstr).
+      unfold dictany_body. cbn [mode_eqb has_some andb].
+      destruct x; try (rewrite sat_object_nondict by (try exact I; exact Hx); cbn [agree]; eexists; reflexivity).
+      rewrite map_length in Hlen.
+      cbn [is_json] in Hx.
+      set (keys := map (fun kv => (fst kv, (unwrap_knr (snd kv), is_required_marker (snd kv)))) schema) in *.
+      assert (Hkstr : forallb (fun key : pyval * (validator * bool) => is_str (fst key)) keys = true).
+      { subst keys. rewrite forallb_map. exact Hstr. }
+      assert (Hdk : forallb (fun kv : pyval * pyval => match fst kv with VStr _ => true | _ => false end) kvs = true).
+      { apply forallb_forall. intros [k0 v0] Hin. rewrite forallb_forall in Hx. specialize (Hx _ Hin). cbn [fst snd] in *. destruct k0; try discriminate. reflexivity. }
+      assert (Hlab : map (fun kv : pyval * validator => skey (fst kv)) schema = map (fun key : pyval * (validator * bool) => skey (fst key)) keys).
+      { subst keys. rewrite map_map. reflexivity. }
+      assert (Hfst : map fst keys = map fst schema) by (subst keys; rewrite map_map; reflexivity).
+      rewrite Hlab, (sat_record strict keys js kvs) by (try exact Hkstr; try exact Hdk; subst keys; rewrite map_length; symmetry; exact Hlen).
+      rewrite Hfst.
+      destruct (strict && has_unknown_key (map fst schema) kvs); cbn [negb andb]; [cbn [agree]; eexists; reflexivity|].
+      rewrite keys_loop_ref. fold (dictany_keys schema). change (dictany_keys schema) with keys.
+      assert (HFk : Forall2 (fun key j => forall xv, is_json xv = true -> agree (sat j xv) (run E Sync n (fst (snd key)) xv)) keys js).
+      { subst keys. clear - HF2 HF2'. revert js HF2 HF2'. induction schema as [|[k v] schema IH]; intros js HF2 HF2'.
+        - inversion HF2; subst. constructor.
+        - cbn [map] in *. inversion HF2 as [|? j ? js0 Ha HFa]; subst. inversion HF2' as [|? ? ? ? Ha' HFa']; subst.
+          constructor; [|apply IH; assumption]. cbn [fst snd]. intros xv Hxv.
+          destruct v; cbn [unwrap_knr]; try apply (Ha xv Hxv). apply knr_agree. apply (Ha' xv Hxv). }
+      destruct (keys_ref_agree (run E Sync n) (DictAnyV schema None None strict) AbsOmit kvs (VDict kvs) Hx keys js HFk) as [ws [errs [K1 K2]]].
+      rewrite K1, <- K2. destruct errs; cbn [agree obj_stage]; eexists; reflexivity.
+    - (* ClassV *)
+      destruct vobj; try discriminate. destruct avobj; try discriminate. destruct co; try discriminate.
+      apply andb_prop in Hf. destruct Hf as [Hfs Hu]. cbn [vheight] in Hn.
+      assert (Hstr : forallb (fun key : pyval * (validator * bool) => is_str (fst key)) schema = true).
+      { apply forallb_forall. intros kv Hin. rewrite forallb_forall in Hfs. specialize (Hfs kv Hin). apply andb_prop in Hfs. apply Hfs. }
+      assert (HA : Forall agrees (map (fun kv => fst (snd kv)) schema)).
+      { apply Forall_map. rewrite Forall_forall in H. apply Forall_forall. intros kv Hin.
+        rewrite forallb_forall in Hfs. specialize (Hfs kv Hin). apply andb_prop in Hfs. destruct Hfs as [_ Hfk].
+        intros m Hm y Hy. apply (H kv Hin Hfk m Hm y Hy). }
+      assert (Hh : forall f, In f (map (fun kv => fst (snd kv)) schema) -> (vheight f < n)%nat).
+      { intros f Hin. apply (list_max_lt (map (fun kv => vheight (fst (snd kv))) schema) n (vheight f)); [lia|].
+        apply in_map_iff in Hin. destruct Hin as [kv [<- Hin]]. apply in_map_iff. exists kv. split; [reflexivity | exact Hin]. }
+      destruct (many_of_agree n _ HA Hh) as [js [Ejs [Hlen HF2]]].
+      change (to_schema text_of named (ClassV rk c schema None None strict None))
+        with (pbind (many_c_of (to_schema text_of named) schema) (fun js =>
+              let req := map (fun kv => key_label text_of (fst kv)) (filter (fun kv => snd (snd kv)) schema) in
+              Ok (object_schema strict
+                    (match rk with RkTyped => sort_strings req | _ => req end)
+                    (props_of (map (fun kv => key_label text_of (fst kv)) schema) js)))).
+      rewrite many_c_map, Ejs. cbn [pbind]. eexists; split; [reflexivity|]. fold_obj.
+      assert (Hlabels : map (fun kv : pyval * (validator * bool) => key_label text_of (fst kv)) schema
+                        = map (fun key : pyval * (validator * bool) => skey (fst key)) schema).
+      { clear - Hstr. induction schema as [|[k0 vr] schema IH]; [reflexivity|].
+        cbn [forallb fst] in Hstr. apply andb_prop in Hstr. destruct Hstr as [Hk Hs].
+        cbn [map fst]. rewrite (key_label_str k0 Hk), (IH Hs). reflexivity. }
+      assert (Hreq : map (fun kv : pyval * (validator * bool) => key_label text_of (fst kv)) (filter (fun kv => snd (snd kv)) schema)
+                     = map (fun key : pyval * (validator * bool) => skey (fst key)) (filter (fun key => snd (snd key)) schema)).
+      { clear - Hstr. induction schema as [|[k0 [v0 r0]] schema IH]; [reflexivity|].
+        cbn [forallb fst] in Hstr. apply andb_prop in Hstr. destruct Hstr as [Hk Hs].
+        cbn [filter snd]. destruct r0; cbn [map fst]; rewrite (IH Hs); [rewrite (key_label_str k0 Hk)|]; reflexivity. }
+      cbv zeta. rewrite Hlabels, Hreq.
+      unfold props_of. rewrite (props_of_combine _ js []) by (cbn [map app]; exact Hu). cbn [app].
+      unfold class_body. cbn [mode_eqb has_some andb].
+      rewrite map_length in Hlen.
+      assert (Hgate_nd : match x with VDict _ => False | _ => True end ->
+                         exists e, class_gate E rk c None x = inl e).
+      { intros Hnd. unfold class_gate. destruct x; try contradiction; try discriminate; destruct rk; eexists; reflexivity. }
+      destruct x; try discriminate; try (destruct (Hgate_nd I) as [e0 ->]; rewrite sat_object_nondict by (try exact I; exact Hx); cbn; eexists; reflexivity).
+      cbn [class_gate as_dict unsub]. cbn [is_json] in Hx.
+      assert (Hdk : forallb (fun kv : pyval * pyval => match fst kv with VStr _ => true | _ => false end) kvs = true).
+      { apply forallb_forall. intros [k0 v0] Hin. rewrite forallb_forall in Hx. specialize (Hx _ Hin). cbn [fst snd] in *. destruct k0; try discriminate. reflexivity. }
+      assert (Hsat : sat (object_schema strict
+                            match rk with
+                            | RkTyped => sort_strings (map (fun key : pyval * (validator * bool) => skey (fst key)) (filter (fun key => snd (snd key)) schema))
+                            | _ => map (fun key : pyval * (validator * bool) => skey (fst key)) (filter (fun key => snd (snd key)) schema)
+                            end
+                            (combine (map (fun key : pyval * (validator * bool) => skey (fst key)) schema) js)) (VDict kvs)
+                     = negb (strict && has_unknown_key (map fst schema) kvs) && keys_ok kvs schema js).
+      { rewrite <- (sat_record strict schema js kvs (eq_sym Hlen) Hstr Hdk).
+        destruct rk; try reflexivity.
+        rewrite !sat_object by (rewrite map_length; symmetry; exact Hlen). rewrite forallb_sort_strings. reflexivity. }
+      rewrite Hsat.
+      destruct (strict && has_unknown_key (map fst schema) kvs); cbn [negb andb]; [cbn [agree]; eexists; reflexivity|].
+      rewrite keys_loop_ref.
+      assert (HFk : Forall2 (fun key j => forall xv, is_json xv = true -> agree (sat j xv) (run E Sync n (fst (snd key)) xv)) schema js).
+      { clear - HF2. revert js HF2. induction schema as [|[k0 [v0 r0]] schema IH]; intros js HF2.
+        - inversion HF2; subst. constructor.
+        - cbn [map] in *. inversion HF2 as [|? j ? js0 Ha HFa]; subst.
+          constructor; [|apply IH; assumption]. cbn [fst snd]. exact Ha. }
+      destruct (keys_ref_agree (run E Sync n) (ClassV rk c schema None None strict None) AbsOmit kvs (VDict kvs) Hx schema js HFk) as [ws [errs [K1 K2]]].
+      rewrite K1, <- K2. destruct errs; cbn [agree obj_stage]; [|eexists; reflexivity].
+      destruct rk; eexists; reflexivity.
     - (* OptionalV *)
       destruct v1; try discriminate. destruct co; try discriminate.
       cbn [vheight] in Hn. destruct n as [|n]; [lia|].
@@ -687,6 +1198,10 @@ Section Frag.
       destruct x; cbn [none_body is_none orb];
         try (destruct (sat (JObj d) _); cbn [agree] in Hd; destruct Hd as [w ->]; cbn; eexists; reflexivity).
       cbn. eexists; reflexivity.
+    - (* KeyNotRequired *)
+      cbn [vheight] in Hn. destruct (IHv Hf n ltac:(lia) x Hx) as [d [Ed Hd]].
+      cbn [to_schema]. exists d. split; [exact Ed|]. unfold knr_body.
+      destruct (sat (JObj d) x); cbn [agree] in *; destruct Hd as [w ->]; eexists; reflexivity.
     - (* CacheV *)
       cbn [vheight] in Hn. destruct (IHv Hf n ltac:(lia) x Hx) as [d [Ed Hd]].
       cbn [to_schema]. exists d. split; assumption.
